@@ -2,7 +2,16 @@
 import conccheck
 
 PID = 'C09'
-THEOREMS = []
+THEOREMS = [
+    'Lcdb.C09.queue_inv',
+    'Lcdb.C09.wakeup_inv',
+    'Lcdb.C09.bg_inv',
+    'Lcdb.C09.no_deadlock',
+    'Lcdb.C09.rank_step',
+    'Lcdb.C09.run_bound',
+    'Lcdb.C09.progress_partial',
+    'Lcdb.C09.no_infinite_run',
+]
 IMPORTS = ['LcdbModel.Props.C09']
 TARGETS = ['LcdbModel.Props.C09']
 OWN = set('deadlock,stuck'.split(','))
